@@ -881,6 +881,37 @@ func ruleDriver(p *Program, r *Reporter) {
 			}
 		}
 	}
+	// (0) what a flag was given on the command line is what it stays: the
+	// field a flag is bound to is written by the flag package only
+	{
+		type bound struct {
+			name, field string
+			pos         token.Pos
+		}
+		var bs []bound
+		for name, field := range flagField {
+			if field != "" {
+				bs = append(bs, bound{name, field, token.NoPos})
+			}
+		}
+		sort.Slice(bs, func(i, j int) bool { return bs[i].name < bs[j].name })
+		for _, bd := range bs {
+			bad := token.NoPos
+			who := ""
+			for _, fn := range cmdFns {
+				for _, b := range fn.Blocks {
+					for _, ins := range b.Instrs {
+						st, ok := ins.(*ssa.Store)
+						if !ok || fieldKey(st.Addr) != bd.field || bad.IsValid() {
+							continue
+						}
+						bad, who = st.Pos(), p.FnName(fn)
+					}
+				}
+			}
+			r.Check(!bad.IsValid(), "flag -"+bd.name+"/keeps the value given on the command line", p.Pos(bad), "the field the flag is bound to is written by the flag package only", who+" assigns to the field the flag is bound to: a later script (or a later step) of the same invocation is run with a value the user did not give — a -timeout that has been used up becomes 0, which is the value for \"no time limit\"")
+		}
+	}
 	for _, fn := range cmdFns {
 		prepCalls := callsTo(fn, a.prepare)
 		if len(prepCalls) == 0 {
